@@ -38,6 +38,8 @@ def node_edge_sets(world):
 class C20(Machine):
     ID = "C20"
     FAMILY_WEIGHTS = {"sparse": 2, "dense": 1, "canal": 5, "modular": 5, "maa": 1, "cascade": 6, "degenerate": 1}
+    FMTS = ("bnet", "aeon", "api")
+    SHUFFLE_ORDER = True
     NMAX = {"quick": 6, "thorough": 8}
 
     def gen_params(self, sc, rng):
@@ -198,8 +200,12 @@ class C20(Machine):
         ref = world.ref
         text = sd.summary()
         st["summary_checked"] += 1
-        order = sorted(ref.names)
         lines = text.split("\n")
+        # the order in which summary() itself says it prints the states
+        heads = [ln for ln in lines if ln.startswith("State order: ")]
+        if len(heads) != 1 or sorted(heads[0][len("State order: "):].split(", ")) != sorted(ref.names):
+            return [viol(self.ID, "summary_state_order_line_wrong", step, {"lines": heads, "names": sorted(ref.names)}, "summary")]
+        order = heads[0][len("State order: "):].split(", ")
         want_head = f"Succession Diagram with {len(sd)} nodes and depth {sd.depth()}."
         if lines[0] != want_head:
             return [viol(self.ID, "summary_header_wrong", step, {"line": lines[0], "want": want_head}, "summary")]
